@@ -20,10 +20,10 @@ job and is what the zombie oracle observes.
 
 Engine E2 (histories, release clause): events {C create Script+query, Qi second query on live
 Script i, R create Script whose first request raises helper-side (helper survives), Ei such a
-request on live Script i, Di drop Script i, G gc.collect(), X crash}; a small reference model (ids in the
-helper, pending-deletion list flushed at the next `run`, sticky crash flag per incarnation)
-predicts `len(Listener._inference_states)`, read back with an `eval` request over the existing
-protocol.
+request on live Script i, Di drop Script i, G gc.collect(), X crash}; a small reference model
+(ids in the helper, pending-deletion list flushed at the next `run`, sticky crash flag per
+incarnation) predicts `len(Listener._inference_states)`, read back with an `eval` request over
+the existing protocol.
 
 No verdict depends on wall time: a blocking read is legal only if a request is outstanding on
 that incarnation or the peer is dead (asserted in the injector); the select() watchdog only
@@ -1199,8 +1199,8 @@ def _levels(tier, refs):
         hlevel('histories depth 5 over C,Q,D,G,X', _histories(5))
         hlevel('histories depth 5 over C,R,E,D,G with a raising request, <=2 live Scripts',
                _histories(5, 'CREDG', True, 2))
-        hlevel('histories depth 4 over C,R,E,D,G,X with a raising request, <=2 live Scripts',
-               _histories(4, 'CREDGX', True, 2))
+        hlevel('histories depth 4 over R,E,D,G,X with a raising request',
+               _histories(4, 'REDGX', True))
     else:
         hlevel('histories depth 6 over C,Q,D,G,X', _histories(6))
         hlevel('histories depth 5 over C,R,Q,E,D,G,X with a raising request',
